@@ -12,7 +12,7 @@ What is read from the source (AST only) and emitted as Lean definitions that the
 * two scope facts: every variable that `_wrapper_content` / `wrapper` / `async_wrapper` / `_split_by_signature` mutates is bound
   inside that very function (the bookkeeping of a call is per call), and `Parameter.validate` keeps no state on `self`;
 * `wrapper` and `async_wrapper`: the dispatch after `result = _wrapper_content(...)`, flattened to guarded statements
-  (enclosing `if return_as == ReturnAs.X`, enclosing `if 'self' in result`, action = dict filter | `return func(<form>)`),
+  (enclosing `if return_as == ReturnAs.X`, enclosing `if <receiver key> in result`, action = dict filter | `return func(<form>)`),
   the `if` of the KWARGS_WITHOUT_NONE dict comprehension as a Boolean function of (value is None?, value truthy?),
   and whether exactly the calls of `async_wrapper` are awaited;
 * `_split_by_signature`: the `*args` shortcut, the `break` test of the prefix loop as a Boolean function of
@@ -27,6 +27,13 @@ What is read from the source (AST only) and emitted as Lean definitions that the
   positional loop raises TooManyArguments, each as a Boolean function of (strict, the key) - comparisons of the key with string
   literals (`==`, `!=`, `in` / `not in` a tuple / list / set of literals or a STRING, which is a substring test), literals and
   containers looked up through module-level constants; keys are numbers (indices into the table of names, emitted as `nameTable`);
+* how the RECEIVER of a method is recognised, in either shape: old - by the key: `if 'self' in result: return func(result.pop('self'),
+  **result)` in the wrappers and `k != 'self'` in the strict test of the positional loop; new - by the signature:
+  `receiver_name = 'self' if <test> else None` (once, in `validator`), the test a Boolean function of (the first parameter of the
+  signature is called self: `next(iter(inspect.signature(func).parameters), None) == 'self'`; some parameter is called self:
+  `'self' in inspect.signature(func).parameters`), then `if receiver_name in result: return func(result.pop(receiver_name), **result)`
+  and `k != receiver_name`.  Emitted: `receiverBySignature`, `receiverName`, `wrapperReceiverKey` / `asyncWrapperReceiverKey` (the key
+  the wrappers test and pop) and the strict tests as functions of (strict, the key, the receiver's name);
 Anything outside these shapes raises Skip (the committed snapshot is used and the correspondence check alone decides).
 """
 import ast
@@ -355,6 +362,83 @@ def gen_loop_order(fn):
     return found
 
 
+# ---------------------------------------------------------------- the receiver of a method
+
+RECEIVER = 'receiver_name'
+
+
+def is_sig_parameters(n):
+    """`inspect.signature(func).parameters` / `signature.parameters`"""
+    if not (isinstance(n, ast.Attribute) and n.attr == 'parameters'):
+        return False
+    v = n.value
+    if is_name(v, 'signature'):
+        return True
+    return (isinstance(v, ast.Call) and len(v.args) == 1 and not v.keywords and is_name(v.args[0], 'func')
+            and ((isinstance(v.func, ast.Attribute) and v.func.attr == 'signature' and is_name(v.func.value, 'inspect')) or is_name(v.func, 'signature')))
+
+
+def gen_receiver(top):
+    """how the receiver of a method is recognised.  Returns (by_signature, rule): `rule` is a Lean term `Option Nat` over
+    (firstIsSelf, anyIsSelf) - the value of `receiver_name`; `none` in the old shape, where no such variable exists."""
+    binds = [n for n in ast.walk(top) if (isinstance(n, ast.Name) and isinstance(n.ctx, (ast.Store, ast.Del)) and n.id == RECEIVER)
+             or (isinstance(n, ast.arg) and n.arg == RECEIVER) or (isinstance(n, (ast.Global, ast.Nonlocal)) and RECEIVER in n.names)]
+    uses = [n for n in ast.walk(top) if isinstance(n, ast.Name) and n.id == RECEIVER and isinstance(n.ctx, ast.Load)]
+    if not binds:
+        if uses:
+            raise Skip(f'validate: {RECEIVER} is read but never bound')
+        return False, 'none'
+    inner = find_func(top, 'validator')
+    assigns = [st for st in inner.body if isinstance(st, ast.Assign) and len(st.targets) == 1 and is_name(st.targets[0], RECEIVER)]
+    if len(binds) != 1 or len(assigns) != 1:
+        raise Skip(f'validate: expected exactly one assignment to {RECEIVER}, directly in the body of `validator`')
+    # it must precede the definitions of the functions that read it
+    idx = inner.body.index(assigns[0])
+    if any(isinstance(st, (ast.FunctionDef, ast.AsyncFunctionDef)) for st in inner.body[:idx]):
+        raise Skip(f'validate: {RECEIVER} is assigned after the wrappers are defined')
+
+    def is_first(n):
+        # next(iter(<parameters>), None)
+        return (isinstance(n, ast.Call) and is_name(n.func, 'next') and len(n.args) == 2 and not n.keywords and is_none(n.args[1])
+                and isinstance(n.args[0], ast.Call) and is_name(n.args[0].func, 'iter') and len(n.args[0].args) == 1
+                and not n.args[0].keywords and is_sig_parameters(n.args[0].args[0]))
+
+    def is_first_list(n):
+        # list(<parameters>)[:1]
+        return (isinstance(n, ast.Subscript) and isinstance(n.slice, ast.Slice) and n.slice.lower is None and n.slice.step is None
+                and isinstance(n.slice.upper, ast.Constant) and n.slice.upper.value == 1
+                and isinstance(n.value, ast.Call) and is_name(n.value.func, 'list') and len(n.value.args) == 1 and not n.value.keywords
+                and is_sig_parameters(n.value.args[0]))
+
+    def is_self(n):
+        return isinstance(n, ast.Constant) and n.value == 'self'
+
+    def is_self_list(n):
+        return isinstance(n, ast.List) and len(n.elts) == 1 and is_self(n.elts[0])
+
+    def atom(n):
+        if isinstance(n, ast.Compare) and len(n.ops) == 1:
+            l, r, op = n.left, n.comparators[0], n.ops[0]
+            if isinstance(op, (ast.Eq, ast.NotEq)):
+                neg = '' if isinstance(op, ast.Eq) else '!'
+                if (is_first(l) and is_self(r)) or (is_first(r) and is_self(l)) or (is_first_list(l) and is_self_list(r)) \
+                        or (is_first_list(r) and is_self_list(l)):
+                    return neg + 'firstIsSelf'
+            if isinstance(op, (ast.In, ast.NotIn)) and is_self(l) and is_sig_parameters(r):
+                return ('' if isinstance(op, ast.In) else '!') + 'anyIsSelf'
+        return None
+
+    def value(n):
+        if is_none(n):
+            return 'none'
+        if isinstance(n, ast.Constant) and isinstance(n.value, str) and n.value in NAMES:
+            return f'some {NAMES.index(n.value)}'
+        if isinstance(n, ast.IfExp):
+            return f'(if {bool_expr(n.test, atom)} then {value(n.body)} else {value(n.orelse)})'
+        raise Skip(f'validate: {RECEIVER} = ... outside the translated subset: {ast.unparse(n)[:80]}')
+    return True, value(assigns[0].value)
+
+
 # ---------------------------------------------------------------- _wrapper_content: the strict tests
 
 def module_value(tree, name):
@@ -377,8 +461,8 @@ def module_value(tree, name):
     return top[0].value if n_bind == 1 and len(top) == 1 else None
 
 
-def gen_strict_tests(tree, fn):
-    """(kw test, pos test): Lean Bool terms over `strict` and the key `k` (a number)"""
+def gen_strict_tests(tree, fn, by_signature):
+    """(kw test, pos test): Lean Bool terms over `strict`, the key `k` (a number) and `receiver` (the value of `receiver_name`)"""
     extra = {}            # string literals of the source outside the table of names get numbers behind it
 
     def nid(lit):
@@ -396,13 +480,19 @@ def gen_strict_tests(tree, fn):
             e = v
         return e
 
-    def key_test(key):
+    def key_test(key, which):
         def atom(n):
             if is_name(n, 'strict'):
                 return 'strict'
             if isinstance(n, ast.Compare) and len(n.ops) == 1:
                 l, r, op = n.left, resolve(n.comparators[0]), n.ops[0]
                 if isinstance(op, (ast.Eq, ast.NotEq)):
+                    if (is_name(l, key) and is_name(n.comparators[0], RECEIVER)) or (is_name(l, RECEIVER) and is_name(n.comparators[0], key)):
+                        if not by_signature:
+                            raise Skip(f'_wrapper_content: {RECEIVER} is not bound')
+                        if which != 'pos':
+                            raise Skip(f'_wrapper_content: the strict test of the keyword loop depends on {RECEIVER}')
+                        return f"(some k {'==' if isinstance(op, ast.Eq) else '!='} receiver)"
                     if is_name(r, key):
                         l, r = r, resolve(l)
                     if is_name(l, key) and isinstance(r, ast.Constant) and isinstance(r.value, str):
@@ -446,7 +536,7 @@ def gen_strict_tests(tree, fn):
         n_raise = sum(1 for x in ast.walk(f) if isinstance(x, ast.Raise) and isinstance(x.exc, ast.Call) and is_name(x.exc.func, 'TooManyArguments'))
         if len(hits) != 1 or n_raise != 1 or which in out:
             raise Skip(f'_wrapper_content: expected exactly one `raise TooManyArguments` in the {which} loop')
-        out[which] = bool_expr(hits[0], key_test(key))
+        out[which] = bool_expr(hits[0], key_test(key, which))
     if set(out) != {'kw', 'pos'}:
         raise Skip('_wrapper_content: keyword / positional loop not found')
     return out['kw'], out['pos']
@@ -601,7 +691,18 @@ def keep_expr(comp):
     return '(' + ' && '.join(bool_expr(c, atom) for c in g.ifs) + ')'
 
 
-def call_form(call, pending_split):
+def receiver_key(n, keys):
+    """the key under which a wrapper looks the receiver up: the literal 'self' (old shape) or the variable `receiver_name`"""
+    if isinstance(n, ast.Constant) and n.value == 'self':
+        keys.add('lit')
+        return True
+    if is_name(n, RECEIVER):
+        keys.add('var')
+        return True
+    return False
+
+
+def call_form(call, pending_split, keys):
     if not (isinstance(call, ast.Call) and is_name(call.func, 'func')):
         raise Skip('dispatch: a return value is not a call of func')
     a, k = call.args, call.keywords
@@ -609,8 +710,8 @@ def call_form(call, pending_split):
     def star_kw(name):
         return len(k) == 1 and k[0].arg is None and is_name(k[0].value, name)
     if len(a) == 1 and isinstance(a[0], ast.Call) and isinstance(a[0].func, ast.Attribute) and a[0].func.attr == 'pop' \
-            and is_name(a[0].func.value, 'result') and len(a[0].args) == 1 and isinstance(a[0].args[0], ast.Constant) \
-            and a[0].args[0].value == 'self' and star_kw('result'):
+            and is_name(a[0].func.value, 'result') and len(a[0].args) == 1 and not a[0].keywords \
+            and receiver_key(a[0].args[0], keys) and star_kw('result'):
         return '.selfKw'
     if len(a) == 1 and isinstance(a[0], ast.Starred) and is_name(a[0].value) and pending_split is not None \
             and a[0].value.id == pending_split[0] and star_kw(pending_split[1]):
@@ -623,7 +724,7 @@ def call_form(call, pending_split):
     raise Skip(f'dispatch: unrecognised call form {ast.unparse(call)}')
 
 
-def gen_prog(fn, is_async):
+def gen_prog(fn, is_async, by_signature):
     body = strip_doc(fn.body)
     if not body:
         raise Skip('dispatch: empty wrapper')
@@ -639,6 +740,7 @@ def gen_prog(fn, is_async):
     out = []        # (mode|None, ifself, act)
     keeps = []
     awaits = []
+    keys = set()    # how the receiver is looked up in `result`: 'lit' ('self') / 'var' (receiver_name)
 
     def mode_of(t):
         if isinstance(t, ast.Compare) and len(t.ops) == 1 and isinstance(t.ops[0], ast.Eq):
@@ -650,7 +752,7 @@ def gen_prog(fn, is_async):
 
     def is_self_test(t):
         return isinstance(t, ast.Compare) and len(t.ops) == 1 and isinstance(t.ops[0], ast.In) \
-            and isinstance(t.left, ast.Constant) and t.left.value == 'self' and is_name(t.comparators[0], 'result')
+            and is_name(t.comparators[0], 'result') and receiver_key(t.left, keys)
 
     def walk(stmts, mode, ifself):
         pending = None
@@ -665,7 +767,7 @@ def gen_prog(fn, is_async):
                     walk(s.body, m, ifself)
                 elif is_self_test(s.test):
                     if ifself or len(s.body) != 1 or not isinstance(s.body[0], ast.Return):
-                        raise Skip("dispatch: `if 'self' in result` does not guard a single return")
+                        raise Skip("dispatch: `if <receiver key> in result` does not guard a single return")
                     walk(s.body, mode, True)
                 else:
                     raise Skip(f'dispatch: unrecognised condition {ast.unparse(s.test)}')
@@ -686,7 +788,7 @@ def gen_prog(fn, is_async):
                 if aw:
                     v = v.value
                 awaits.append(aw)
-                out.append((mode, ifself, f'.ret {call_form(v, pending)}'))
+                out.append((mode, ifself, f'.ret {call_form(v, pending, keys)}'))
             else:
                 raise Skip(f'dispatch: unrecognised statement {ast.unparse(s)[:60]}')
     walk(body[1:], None, False)
@@ -694,7 +796,11 @@ def gen_prog(fn, is_async):
         raise Skip('dispatch: several different result filters')
     keep = keeps[0] if keeps else 'true'
     awaits_ok = all(awaits) if is_async else not any(awaits)
-    return out, keep, awaits_ok
+    if len(keys) > 1:
+        raise Skip(f"dispatch: {fn.name} looks the receiver up both under 'self' and under {RECEIVER}")
+    if 'var' in keys and not by_signature:
+        raise Skip(f'dispatch: {RECEIVER} is not bound')
+    return out, keep, awaits_ok, ('receiver' if 'var' in keys else 'some 0')
 
 
 def prog_lean(prog):
@@ -797,14 +903,15 @@ def gen_validate(repo):
     rule = gen_is_required(ptree)
     none_first, over_all, feeds, handler_ok = gen_validate_shape(ptree)
     loops = gen_loop_order(find_func(tree, '_wrapper_content'))
-    prog, keep, aw = gen_prog(find_func(tree, 'wrapper'), False)
-    aprog, akeep, aaw = gen_prog(find_func(tree, 'async_wrapper'), True)
+    by_signature, receiver_rule = gen_receiver(find_func(tree, 'validate'))
+    prog, keep, aw, rkey = gen_prog(find_func(tree, 'wrapper'), False, by_signature)
+    aprog, akeep, aaw, arkey = gen_prog(find_func(tree, 'async_wrapper'), True, by_signature)
     shortcut, stops, split_ret = gen_split(find_func(tree, '_split_by_signature'))
     wants_rule, zip_test = gen_wants_args(find_func(tree, 'validate'), find_func(tree, '_wrapper_content'))
     per_call = all(bookkeeping_is_per_call(find_func(tree, f)) for f in ('_wrapper_content', 'wrapper', 'async_wrapper', '_split_by_signature'))
     stateless = validate_is_stateless(ptree)
     nm = gen_naming(ast.parse(src(repo, REL_E)), ptree, ast.parse(src(repo, REL_V)))
-    kw_strict, pos_strict = gen_strict_tests(tree, find_func(tree, '_wrapper_content'))
+    kw_strict, pos_strict = gen_strict_tests(tree, find_func(tree, '_wrapper_content'), by_signature)
     under = ' | '.join(f'.{k} => {lean_bool(u)}' for k, u in sorted(loops))
     return HEADER.format(rel=REL + ', ' + REL_P + ', ' + REL_E + ' and ' + REL_V) + f'''set_option linter.unusedVariables false
 namespace PedVerif.Gen.Validate
@@ -864,12 +971,21 @@ def underIgnoreInput : Loop → Bool
 
 /-- the harness's table of names: a key / parameter name is its index in this table -/
 def nameTable : List String := [{', '.join(lean_str(n) for n in NAMES)}]
+/-- how the receiver of a method is recognised: `true` - by the signature (`receiver_name = <rule>`, computed once per decorated
+    function); `false` - by the key: whatever `result` holds under the literal key `'self'` -/
+def receiverBySignature : Bool := {lean_bool(by_signature)}
+/-- the value of `receiver_name` (`none` = Python's `None`: no receiver) as a function of "the first parameter of the signature is
+    called self" (`next(iter(inspect.signature(func).parameters), None) == 'self'`) and "some parameter of the signature is called
+    self" (`'self' in inspect.signature(func).parameters`); `none` when the source has no such variable -/
+def receiverName (firstIsSelf anyIsSelf : Bool) : Option Nat := {receiver_rule}
 /-- the `else` branch (no Parameter declared for the key) of the keyword loop: `if <this>: raise TooManyArguments`, as a function
     of `strict` and the key -/
 def kwStrictTest (strict : Bool) (k : Nat) : Bool := {kw_strict}
-/-- the same branch of the positional loop (`for k in bound_args`).  Comparisons of the key with string literals are translated
-    through `nameTable`; `k in <string>` is Python's substring test: the names of the table that occur in the string -/
-def posStrictTest (strict : Bool) (k : Nat) : Bool := {pos_strict}
+/-- the same branch of the positional loop (`for k in bound_args`), as a function of `strict`, the key and the value of
+    `receiver_name`.  Comparisons of the key with string literals are translated
+    through `nameTable`; `k in <string>` is Python's substring test: the names of the table that occur in the string;
+    `k != receiver_name` is `some k != receiver` -/
+def posStrictTest (strict : Bool) (k : Nat) (receiver : Option Nat) : Bool := {pos_strict}
 
 /-- `wants_args = <rule>` as a function of "the text `*args` occurs in `str(signature)`" and "a parameter of the
     signature is named `args`"; `false` when the source has no such test (it looks the VAR_POSITIONAL parameter up instead) -/
@@ -890,7 +1006,7 @@ def parameterValidateIsStateless : Bool := {lean_bool(stateless)}
 inductive Mode where | args | kwWithNone | kwWithoutNone
 deriving DecidableEq, Repr
 inductive CallForm where
-  | selfKw      -- `func(result.pop('self'), **result)`
+  | selfKw      -- `func(result.pop(<receiver key>), **result)`
   | split       -- `positional, by_name = _split_by_signature(result=result)`; `func(*positional, **by_name)`
   | kw          -- `func(**result)`
   | values      -- `func(*result.values())`
@@ -902,7 +1018,7 @@ deriving DecidableEq, Repr
 /-- one statement with the conditions that enclose it -/
 structure GStmt where
   mode : Option Mode       -- `if return_as == ReturnAs.<mode>:`
-  ifSelf : Bool            -- `if 'self' in result:`
+  ifSelf : Bool            -- `if <receiver key> in result:`
   act : Act
 deriving DecidableEq, Repr
 
@@ -910,6 +1026,10 @@ def wrapperProg : List GStmt :=
   {prog_lean(prog)}
 def asyncWrapperProg : List GStmt :=
   {prog_lean(aprog)}
+/-- the key under which the wrapper looks the receiver up (`if <key> in result: return func(result.pop(<key>), **result)`), as a
+    function of the value of `receiver_name`: that value itself, or `some 0` for the literal `'self'` -/
+def wrapperReceiverKey (receiver : Option Nat) : Option Nat := {rkey}
+def asyncWrapperReceiverKey (receiver : Option Nat) : Option Nat := {arkey}
 /-- the `if` of the dict comprehension, as a function of "v is None" and "bool(v)" -/
 def wrapperKeep (isNone truthy : Bool) : Bool := {keep}
 def asyncWrapperKeep (isNone truthy : Bool) : Bool := {akeep}
